@@ -15,6 +15,8 @@ struct Cfg {
     j1: u64,
     later: u64,
     probe: bool,
+    /// instance label of the first service
+    label: &'static str,
 }
 
 const OFFSETS: [u64; 5] = [0, 0, 100, 300, 800];
@@ -77,12 +79,16 @@ fn run_case(c: &Cfg, trace: bool) -> CaseResult {
         } else {
             None
         },
-        inst: n("one._t._tcp.local"),
+        inst: {
+            let mut v: Name = vec![c.label.as_bytes().to_vec()];
+            v.extend(n("_t._tcp.local"));
+            v
+        },
         host: n("host.local"),
         port: 80,
         reg_at: w.now,
     }];
-    let mut s1 = svc(ty1, "one", "host.local.", &ipstr, 80, &[("k", "v")]);
+    let mut s1 = svc(ty1, c.label, "host.local.", &ipstr, 80, &[("k", "v")]);
     s1.set_requires_probe(c.probe);
     w.ds[0].h.register(s1).unwrap();
     w.poke(0);
@@ -127,7 +133,7 @@ fn run_case(c: &Cfg, trace: bool) -> CaseResult {
                 let q = query(vec![
                     (n("_t._tcp.local"), T_PTR),
                     (n("_u._udp.local"), T_PTR),
-                    (n("one._t._tcp.local"), T_SRV),
+                    (specs[0].inst.clone(), T_SRV),
                     (n("two._u._udp.local"), T_TXT),
                     (n("host.local"), T_A),
                     (n("host.local"), T_AAAA),
@@ -359,7 +365,8 @@ fn run_case(c: &Cfg, trace: bool) -> CaseResult {
             let fullname = dotted(&s.inst);
             if !mons
                 .iter()
-                .any(|(t, e)| *t == a1 && matches!(e, MEv::Announce(nm, _) if nm.eq_ignore_ascii_case(&fullname)))
+                // (the event carries the full name as the crate spells it: dots inside the instance label escaped)
+                .any(|(t, e)| *t == a1 && matches!(e, MEv::Announce(nm, _) if nm.replace("\\.", ".").eq_ignore_ascii_case(&fullname)))
             {
                 res.viols.push(viol(
                     "C07|no-Announce-event-at-first-announcement",
@@ -578,9 +585,9 @@ pub fn check(tier: &str) -> i32 {
     let cfg_of = |i: u64| -> Cfg {
         let x = unrank(i, &dims);
         if thorough {
-            Cfg { subtype: x[0] == 1, family: x[1], two_intf: x[2] == 1, second: x[3], j1: x[4], later: x[5], probe: true }
+            Cfg { subtype: x[0] == 1, family: x[1], two_intf: x[2] == 1, second: x[3], j1: x[4], later: x[5], probe: true, label: "one" }
         } else {
-            Cfg { subtype: x[0] == 1, family: [0, 2][x[1] as usize], two_intf: x[2] == 1, second: [0, 1, 3][x[3] as usize], j1: x[4], later: x[5], probe: true }
+            Cfg { subtype: x[0] == 1, family: [0, 2][x[1] as usize], two_intf: x[2] == 1, second: [0, 1, 3][x[3] as usize], j1: x[4], later: x[5], probe: true, label: "one" }
         }
     };
     let main = FnPart {
@@ -600,10 +607,24 @@ pub fn check(tier: &str) -> i32 {
         describe: Box::new(|i| format!("{:?}", unrank(i, &cdims))),
         run: Box::new(|i, tr| {
             let x = unrank(i, &cdims);
-            run_case(&Cfg { subtype: x[0] == 1, family: x[1], two_intf: x[2] == 1, second: x[3] * 2, j1: 100, later: 0, probe: false }, tr)
+            run_case(&Cfg { subtype: x[0] == 1, family: x[1], two_intf: x[2] == 1, second: x[3] * 2, j1: 100, later: 0, probe: false, label: "one" }, tr)
         }),
     };
     rep.run_part(&ctl, Duration::from_secs(60));
+    // other instance-name shapes
+    const LABELS: [&str; 5] = ["One", "MY PRINTER", "Ünal Büro", "My.Printer", "nnnnnnnnnnnnnnnnnnnnnnnnnnnnnnnnnnnnnnnnnnnnnnnnnnnnnnnnnnnnnnn"];
+    let sdims = [LABELS.len() as u64, 3, 2, 2];
+    let shapes = FnPart {
+        name: "instance-name-shapes".into(),
+        rule: "the same schedule oracle for instance labels with capital letters, non-ASCII capitals, a dot inside the label and 63 bytes x 3 jitters x (IPv4 / dual) x (alone / second service 300 ms later)".into(),
+        n: product(&sdims),
+        describe: Box::new(move |i| { let x = unrank(i, &sdims); format!("label {:?} jitter {} family {} second {}", LABELS[x[0] as usize], [0, 137, 249][x[1] as usize], [0, 2][x[2] as usize], x[3]) }),
+        run: Box::new(move |i, tr| {
+            let x = unrank(i, &sdims);
+            run_case(&Cfg { subtype: false, family: [0, 2][x[2] as usize], two_intf: false, second: x[3] * 3, j1: [0, 137, 249][x[1] as usize], later: 1, probe: true, label: LABELS[x[0] as usize] }, tr)
+        }),
+    };
+    rep.run_part(&shapes, Duration::from_secs(60));
     let hdepth = if thorough { 5 } else { 4 };
     let nh = HOPS.len() as u64;
     let mut nhs = 0u64;
